@@ -455,7 +455,9 @@ Proof.
   cbn [pe_section_loop]. unfold pe_sec_loop_cond, pe_sec_clip_cond.
   destruct (remaining >? 0) eqn:Er.
   - set (n := if remaining >? pagesz then pagesz else remaining).
-    assert (Hn : 0 < n <= remaining /\ n <= pagesz) by (subst n; destruct (remaining >? pagesz) eqn:E; lia).
+    assert (Hn : 0 < n <= remaining /\ n <= pagesz /\ (n = pagesz \/ n = remaining))
+      by (subst n; destruct (remaining >? pagesz) eqn:E; lia).
+    clearbody n.
     destruct (read_full_spec r n ltac:(lia)) as [H1 H2].
     destruct (read_full r n) as [got r']. cbn [fst snd] in H1, H2.
     assert (Hg : zlen got = n) by (subst got; rewrite zlen_ztake_min by lia; lia).
@@ -469,9 +471,9 @@ Proof.
       rewrite (ztake_split n remaining) by lia. rewrite <- H1, H2.
       destruct (Z.eq_dec n pagesz) as [->|Hne].
       * rewrite chunks_app_full by lia. cbn [number_pages]. now rewrite Hg.
-      * assert (remaining = n) by (subst n; destruct (remaining >? pagesz) eqn:E'; lia).
+      * assert (remaining = n) by lia.
         replace (remaining - n) with 0 by lia. rewrite ztake_neg by lia. rewrite app_nil_r.
-        rewrite chunks_small by lia. cbn [number_pages]. rewrite chunks_nil. reflexivity.
+        rewrite (chunks_small pagesz HP got) by lia. cbn [number_pages]. rewrite chunks_nil. reflexivity.
     + rewrite Hd, H2. rewrite zdrop_zdrop by lia. f_equal. lia.
   - exists r. assert (remaining = 0) by lia. subst remaining. rewrite ztake_neg by lia. rewrite chunks_nil.
     cbn [number_pages]. rewrite app_nil_r, Z.add_0_r. split; [reflexivity|]. now rewrite zdrop_0.
@@ -479,3 +481,180 @@ Qed.
 
 Lemma concat_number_pages pos cs : concat (map snd (number_pages pos cs)) = concat cs.
 Proof. revert pos. induction cs as [|c r IH]; intros pos; cbn; [reflexivity|]. now rewrite IH. Qed.
+
+(* ================================================================== 8. tar framing *)
+Lemma zip_tar_roundtrip dirloc f : 0 <= dirloc <= zlen f ->
+  read_zip_tar (zip_to_tar dirloc f) = Ok (zdrop dirloc f, f).
+Proof.
+  intros H. unfold zip_to_tar, ziptotar_members, ziptotar_sizes, ziptotar_seeks.
+  cbn [length seq map nth]. unfold tar_name, seek_pos, size_of. cbn [Z.eqb Pos.eqb].
+  unfold read_zip_tar.
+  replace (readziptar_first_bad tar_member_cd) with false by reflexivity.
+  replace (readziptar_second_bad tar_member_zip) with false by reflexivity.
+  rewrite zdrop_0. rewrite (ztake_all (zlen f - dirloc)) by (rewrite zlen_zdrop by lia; lia).
+  rewrite (ztake_all (zlen f)) by lia. reflexivity.
+Qed.
+
+(* ================================================================== 9. encoding negotiation *)
+Definition snappy_name : bytes := [120; 45; 115; 110; 97; 112; 112; 121; 45; 102; 114; 97; 109; 101; 100].
+Definition gzip_name : bytes := [103; 122; 105; 112].
+
+Lemma bytes_eqb_eq a b : bytes_eqb a b = true <-> a = b.
+Proof. apply list_eqb_Z_eq. Qed.
+Lemma bytes_eqb_neq a b : bytes_eqb a b = false <-> a <> b.
+Proof. split; intros H. - intros E. apply bytes_eqb_eq in E. congruence. - destruct (bytes_eqb a b) eqn:E; [apply bytes_eqb_eq in E; congruence|reflexivity]. Qed.
+
+Lemma pref_of_cases e :
+  pref_of enc_prefs e = (if bytes_eqb gzip_name e then 1 else if bytes_eqb snappy_name e then 2 else 0).
+Proof. reflexivity. Qed.
+
+Lemma sel_loop_spec items : forall pref best,
+  (pref = 0 /\ best = []) \/ (pref = 1 /\ best = gzip_name) \/ (pref = 2 /\ best = snappy_name) ->
+  sel_loop items pref best =
+    if (pref =? 2) || mem_bytes snappy_name items then snappy_name
+    else if (pref =? 1) || mem_bytes gzip_name items then gzip_name else [].
+Proof.
+  induction items as [|e r IH]; intros pref best Hst.
+  - cbn [sel_loop mem_bytes existsb]. rewrite !orb_false_r.
+    destruct Hst as [[-> ->]|[[-> ->]|[-> ->]]]; reflexivity.
+  - cbn [sel_loop mem_bytes existsb]. rewrite pref_of_cases. unfold sel_better_cond.
+    fold (mem_bytes snappy_name r). fold (mem_bytes gzip_name r).
+    destruct (bytes_eqb gzip_name e) eqn:Eg.
+    + apply bytes_eqb_eq in Eg. subst e.
+      replace (bytes_eqb snappy_name gzip_name) with false by reflexivity. cbn [orb].
+      destruct Hst as [[-> ->]|[[-> ->]|[-> ->]]]; cbn [Z.gtb Z.compare Pos.compare Pos.compare_cont Z.eqb orb].
+      * rewrite IH by (right; left; split; reflexivity). cbn [Z.eqb Pos.eqb orb]. reflexivity.
+      * rewrite IH by (right; left; split; reflexivity). cbn [Z.eqb Pos.eqb orb]. reflexivity.
+      * rewrite IH by (right; right; split; reflexivity). reflexivity.
+    + destruct (bytes_eqb snappy_name e) eqn:Es.
+      * apply bytes_eqb_eq in Es. subst e. rewrite orb_true_r.
+        destruct Hst as [[-> ->]|[[-> ->]|[-> ->]]]; cbn [Z.gtb Z.compare Pos.compare Pos.compare_cont];
+          rewrite IH by (right; right; split; reflexivity); reflexivity.
+      * cbn [orb].
+        destruct Hst as [[-> ->]|[[-> ->]|[-> ->]]]; cbn [Z.gtb Z.compare Pos.compare Pos.compare_cont].
+        -- apply IH. left. split; reflexivity.
+        -- apply IH. right. left. split; reflexivity.
+        -- apply IH. right. right. split; reflexivity.
+Qed.
+
+Lemma select_encoding_spec items : select_encoding items = spec_select items.
+Proof. unfold select_encoding. rewrite sel_loop_spec by (left; split; reflexivity). reflexivity. Qed.
+
+(* ================================================================== 10. client doRequest *)
+Definition o_success (o : outcome) : bool := match o with OStatus c => c <? 300 | _ => false end.
+Definition o_is_406 (o : outcome) : bool := match o with OStatus c => c =? 406 | _ => false end.
+
+(* SPEC, written from the property statement: servers are tried in list order; only a transient failure moves on to the
+   next server; a 406 while compression was offered restarts from the first server without compression; the accepted
+   response comes from a server that answered below 300; anything else ends the request with that failure *)
+Inductive good_trace (L nb : Z) : Z -> bool -> list (attempt * outcome) -> dr_result -> Prop :=
+| GT_accept i enc c : 0 <= i < L -> c < 300 ->
+    good_trace L nb i enc [(mkAtt (i mod nb) enc, OStatus c)] (DrAccepted (i mod nb) enc c)
+| GT_fallback i rest res : 0 <= i < L -> good_trace L nb 0 false rest res ->
+    good_trace L nb i true ((mkAtt (i mod nb) true, OStatus 406) :: rest) res
+| GT_next i enc o rest res : 0 <= i -> i + 1 < L -> outcome_temporary o = true -> o_success o = false ->
+    o_is_406 o && enc = false -> good_trace L nb (i + 1) enc rest res ->
+    good_trace L nb i enc ((mkAtt (i mod nb) enc, o) :: rest) res
+| GT_fail i enc o : 0 <= i < L -> o_success o = false -> o_is_406 o && enc = false ->
+    outcome_temporary o = false \/ L <= i + 1 ->
+    good_trace L nb i enc [(mkAtt (i mod nb) enc, o)] (DrFailed o).
+
+Definition dr_measure (L i : Z) (enc : bool) : Z := (L - i) + (if enc then L else 0).
+
+Lemma dr_loop_spec L nb : forall fuel i enc script acc, 0 <= i < L ->
+  (Z.to_nat (dr_measure L i enc) < fuel)%nat ->
+  exists t res, dr_loop fuel L nb i enc script acc = (acc ++ t, res) /\ good_trace L nb i enc t res.
+Proof.
+  induction fuel as [|f IH]; intros i enc script acc Hi Hf; [lia|].
+  cbn [dr_loop]. replace (L <=? i) with false by lia.
+  unfold dr_success_cond, dr_fallback_cond, dr_next_cond, dr_success_breaks, dr_fallback_restarts, dr_fallback_clears_encoding.
+  unfold dr_measure in *.
+  destruct (hd (OStatus 200) script) as [| |c] eqn:Eo.
+  - (* connection error, transient *)
+    cbn [andb outcome_temporary]. destruct (i + 1 <? L) eqn:En.
+    + destruct (IH (i + 1) enc (tl script) (acc ++ [(mkAtt (i mod nb) enc, OConnTemp)])) as (t & res & E & G);
+        [lia|destruct enc; lia|].
+      exists ((mkAtt (i mod nb) enc, OConnTemp) :: t), res. rewrite E, <- app_assoc. split; [reflexivity|].
+      apply GT_next; auto; lia.
+    + exists [(mkAtt (i mod nb) enc, OConnTemp)], (DrFailed OConnTemp). split; [reflexivity|].
+      apply GT_fail; auto. right. lia.
+  - cbn [andb outcome_temporary].
+    exists [(mkAtt (i mod nb) enc, OConnPerm)], (DrFailed OConnPerm). split; [reflexivity|].
+    apply GT_fail; auto.
+  - cbn [andb outcome_temporary]. destruct (c <? 300) eqn:Ec.
+    + exists [(mkAtt (i mod nb) enc, OStatus c)], (DrAccepted (i mod nb) enc c). split; [reflexivity|].
+      apply GT_accept; lia.
+    + destruct ((c =? 406) && enc) eqn:E4.
+      * apply andb_true_iff in E4 as [E4 ->]. assert (c = 406) by lia. subst c.
+        destruct (IH 0 false (tl script) (acc ++ [(mkAtt (i mod nb) true, OStatus 406)])) as (t & res & E & G); [lia|lia|].
+        exists ((mkAtt (i mod nb) true, OStatus 406) :: t), res. rewrite E, <- app_assoc. split; [reflexivity|].
+        apply GT_fallback; auto.
+      * destruct (status_is_temporary c && (i + 1 <? L)) eqn:En.
+        -- apply andb_true_iff in En as [Et En].
+           destruct (IH (i + 1) enc (tl script) (acc ++ [(mkAtt (i mod nb) enc, OStatus c)])) as (t & res & E & G);
+             [lia|destruct enc; lia|].
+           exists ((mkAtt (i mod nb) enc, OStatus c) :: t), res. rewrite E, <- app_assoc. split; [reflexivity|].
+           apply GT_next; auto; try lia.
+        -- exists [(mkAtt (i mod nb) enc, OStatus c)], (DrFailed (OStatus c)). split; [reflexivity|].
+           apply GT_fail; auto. cbn [outcome_temporary]. apply andb_false_iff in En as [En|En]; [left; exact En|right; lia].
+Qed.
+
+Lemma good_trace_length L nb i enc t res : good_trace L nb i enc t res -> 0 < zlen t <= dr_measure L i enc.
+Proof.
+  unfold dr_measure. induction 1; rewrite ?zlen_cons; change (zlen (@nil (attempt * outcome))) with 0; try (destruct enc; lia).
+  lia.
+Qed.
+
+(* what a good trace guarantees, in the words of the property *)
+Lemma good_trace_accept L nb i enc t res s e c : good_trace L nb i enc t res -> res = DrAccepted s e c ->
+  c < 300 /\ exists t0, t = t0 ++ [(mkAtt s e, OStatus c)].
+Proof.
+  induction 1; intros Hr; try discriminate.
+  - inversion Hr; subst. split; [lia|]. now exists [].
+  - destruct (IHgood_trace Hr) as (Hc & t0 & ->). split; [exact Hc|]. now eexists (_ :: t0).
+  - destruct (IHgood_trace Hr) as (Hc & t0 & ->). split; [exact Hc|]. now eexists (_ :: t0).
+Qed.
+
+(* once the encoding has been dropped it stays dropped *)
+Lemma good_trace_noenc L nb i t res : good_trace L nb i false t res -> Forall (fun ao => a_enc (fst ao) = false) t.
+Proof.
+  remember false as enc eqn:Ee. induction 1; subst; try discriminate.
+  - constructor; [reflexivity|constructor].
+  - constructor; [reflexivity|]. now apply IHgood_trace.
+  - constructor; [reflexivity|constructor].
+Qed.
+
+Lemma dr_len_ge nbases retries : 0 < nbases -> nbases <= dr_len nbases retries.
+Proof.
+  intros Hn. unfold dr_len, dr_repeat_cond. destruct (nbases <? retries) eqn:E; [|lia].
+  assert (G : forall fuel nrep, (Z.to_nat (retries - nrep) <= fuel)%nat -> 0 <= nrep ->
+            retries <= repeat_loop fuel nbases retries nrep \/ (nrep < retries /\ False)).
+  { induction fuel as [|f IH]; intros nrep Hf H0.
+    - left. cbn. lia.
+    - cbn [repeat_loop]. unfold dr_repeat_loop_cond. destruct (nrep <? retries) eqn:E2; [|left; lia].
+      destruct (IH (nrep + nbases)) as [G|[_ []]]; [lia|lia|]. left. exact G. }
+  destruct (G (Z.to_nat retries) 0) as [G1|[_ []]]; [lia|lia|]. lia.
+Qed.
+
+Lemma do_request_spec nbases retries enc script : 0 < nbases ->
+  exists t res, do_request nbases retries enc script = (t, res) /\
+    good_trace (dr_len nbases retries) nbases 0 enc t res /\ zlen t <= 2 * dr_len nbases retries.
+Proof.
+  intros Hn. unfold do_request. pose proof (dr_len_ge nbases retries Hn) as HL.
+  destruct (dr_loop_spec (dr_len nbases retries) nbases (Z.to_nat (2 * dr_len nbases retries + 2)) 0 enc script [])
+    as (t & res & E & G); [lia|unfold dr_measure; destruct enc; lia|].
+  exists t, res. cbn [app] in E. split; [exact E|]. split; [exact G|].
+  apply good_trace_length in G. unfold dr_measure in G. destruct enc; lia.
+Qed.
+
+Section TransportProofs.
+  Variable compress decompress : bytes -> bytes -> bytes.
+  Hypothesis Hrt : forall e x, decompress e (compress e x) = x.
+  Lemma server_sees_upload upload advertised a :
+    server_sees decompress (attempt_wire compress upload advertised a) = upload.
+  Proof.
+    unfold attempt_wire, server_sees.
+    replace (dr_builds_request_per_attempt && list_eqb Z.eqb br_calls [0; 1]) with true by reflexivity.
+    destruct (creq_plain_cond (if a_enc a then select_encoding advertised else [])); [reflexivity|apply Hrt].
+  Qed.
+End TransportProofs.
